@@ -219,7 +219,7 @@ def specs(rng):
     add('util.skew_matrix', Call('stack', util.skew_matrix, [dr], vary=[0], single=row0))
     add('util.compute_rms', Call('array', util.compute_rms, [dr], vary=[0], table_forms=[0]))
     ang = rng.uniform(-1000, 1000, 12)
-    add('util.to_180_range', Call('array', util.to_180_range, [ang], vary=[0]), Call('series', util.to_180_range, [pd.Series(ang)]),
+    add('util.to_180_range', Call('array', util.to_180_range, [ang], vary=[0]), Call('array2d', util.to_180_range, [ang.reshape(4, 3).copy()], vary=[0]), Call('series', util.to_180_range, [pd.Series(ang)]),
         Call('frame', util.to_180_range, [pd.DataFrame({'a': ang, 'b': -ang})]), Call('scalar', util.to_180_range, [float(ang[0])]))
     add('util.Bunch', Call('ctor', util.Bunch, [], kwargs=dict(a=1, b=np.ones(2))))
     # ---- sim
